@@ -98,6 +98,9 @@ type Run struct {
 	oracle []Oracle
 	Pre    *CycleState // API state captured at the start of the current cycle
 	allocEvents []string // task names of allocate events (used by the statement fuzzer)
+	Binder      *BinderActor
+	brFailed    map[string]int
+	brAttempts  map[string]int
 }
 
 type Oracle interface {
@@ -306,6 +309,21 @@ func (r *Run) apply(op Op) {
 		}
 	case "binder":
 		r.stubBinder()
+	case "rbinder":
+		r.realBinder(op)
+	case "delete_node":
+		_ = r.API.Tracker.Delete(NodeGVR, "", op.Arg)
+		r.Probe("node_deleted")
+	case "set_backoff":
+		for _, br := range r.API.BindRequests() {
+			if br.Spec.BackoffLimit == nil && br.Status.Phase != bindv1alpha2.BindRequestPhaseSucceeded {
+				br = br.DeepCopy()
+				l := int32(op.N)
+				br.Spec.BackoffLimit = &l
+				_ = r.API.Tracker.Update(BRGVR, br, br.Namespace)
+				r.Probe("backoff_limit_set")
+			}
+		}
 	case "kubelet":
 		r.kubelet(op.Arg)
 	case "complete":
